@@ -92,5 +92,22 @@ def run(ctx: core.Ctx) -> int:
     ctx.floor("LAY-RESULT", len(seen), 3, "returned Jacobian arrays")
     for u in it.undecided_sites:
         ctx.note(f"undecided: {u}")
+    # the Jacobian functions keep no state between calls (a memoised matrix is the Jacobian of an earlier evaluation point)
+    from .. import effects as _eff
+    ctx.rule("PURE", "process_jacobian / control_jacobian / sensor_jacobian write nothing but fresh locals")
+    _cls = core.need(core.find_class(it.p.modules["python"], "ExtendedKalmanFilter"), "python.ExtendedKalmanFilter")
+    for _f in funcs:
+        _fn = core.need(core.find_func(_cls, _f), f"ExtendedKalmanFilter.{_f}")
+        _ws = _eff.writes(_fn)
+        ctx.oblige("PURE", f"py/formak/python.py:ExtendedKalmanFilter.{_f}", f"{len(_ws)} write effect(s)", not _ws, file="py/formak/python.py",
+                   func=f"ExtendedKalmanFilter.{_f}", construct="writes:" + ";".join(sorted(w.kind + " " + w.target for w in _ws)),
+                   msg="the Jacobian function keeps state between calls: " + "; ".join(f"{w.kind} {w.target} (line {w.line})" for w in _ws),
+                   line=_ws[0].line if _ws else None)
+    # the values of the compiled blocks go through python.BasicBlock: its temporaries protocol and trusted sympy signatures (shared with C01/C08)
+    from .. import tmprules as _tmp
+    for _rid, _t in (("TMP-1", "python prefix/body lambdify protocol"), ("TMP-2", "python execute protocol"), ("TMP-4", "CSE flag gates only cse()/simplify()"),
+                     ("TRUST-SIG", "trusted sympy call signatures")):
+        ctx.rule(_rid, _t)
+    _tmp.check_python_block(ctx, it.p.modules["python"])
     return core.finish(ctx, explanation="layout abstract interpretation (E2) of python.ExtendedKalmanFilter: Jacobian blocks, "
                                         "their execute() sites and the three un-flatten nests, for every model at once", **META)
